@@ -209,6 +209,7 @@ class Agg:
     def add(self, res, want_sample):
         self.evaluations += 1
         self.run_wall += res.get("wall", 0.0)
+        self.stats["max_run_wall_s"] = max(self.stats.get("max_run_wall_s", 0), round(res.get("wall", 0.0), 1))
         for k, v in res.get("stats", {}).items():
             if k.startswith("max_"):
                 self.stats[k] = max(self.stats.get(k, 0), v)
